@@ -140,44 +140,44 @@ Definition loop_post (st : rstate) (els : list elem) (st' : rstate) : Prop :=
   r_nodes st' = rev (el_nodes els) ++ r_nodes st /\
   r_edges st' = apply_edges (r_edges st) els.
 
-Definition loop_spec (parse : bytes -> option weight) (evs : list event) (st : rstate) : Prop :=
-  match doc_elems parse evs (r_wkey st) (r_last st) with
-  | None => rloop parse evs st = Err ReadError
-  | Some els => exists st', rloop parse evs st = Ok st' /\ loop_post st els st'
+Definition loop_spec (parse : bytes -> option weight) (evs : list event) (st : rstate) (exp : bool) : Prop :=
+  match doc_elems parse evs (r_wkey st) (r_last st) exp with
+  | None => rloop parse evs st exp = Err ReadError
+  | Some els => exists st', rloop parse evs st exp = Ok st' /\ loop_post st els st'
   end.
 
 Lemma loop_post_nil : forall st, loop_post st [] st.
 Proof. intro st. repeat split. Qed.
 
-Lemma ocons_spec : forall parse rest st st1 el o r,
+Lemma ocons_spec : forall parse rest st st1 exp1 el o r,
   (* the model continues with st1, the spec continues with the same key / marker and emits el *)
-  r = rloop parse rest st1 ->
-  o = ocons el (doc_elems parse rest (r_wkey st1) (r_last st1)) ->
-  loop_spec parse rest st1 ->
+  r = rloop parse rest st1 exp1 ->
+  o = ocons el (doc_elems parse rest (r_wkey st1) (r_last st1) exp1) ->
+  loop_spec parse rest st1 exp1 ->
   (forall els st', loop_post st1 els st' -> loop_post st (el :: els) st') ->
   match o with
   | None => r = Err ReadError
   | Some els => exists st', r = Ok st' /\ loop_post st els st'
   end.
 Proof.
-  intros parse rest st st1 el o r Hr Ho Hspec Hpost. subst r o. unfold loop_spec in Hspec.
-  destruct (doc_elems parse rest (r_wkey st1) (r_last st1)) as [els|]; cbn [ocons].
+  intros parse rest st st1 exp1 el o r Hr Ho Hspec Hpost. subst r o. unfold loop_spec in Hspec.
+  destruct (doc_elems parse rest (r_wkey st1) (r_last st1) exp1) as [els|]; cbn [ocons].
   - destruct Hspec as [st' [H1 H2]]. exists st'. split; [exact H1|apply Hpost; exact H2].
   - exact Hspec.
 Qed.
 
-Lemma same_spec : forall parse rest st st1 o r,
-  r = rloop parse rest st1 ->
-  o = doc_elems parse rest (r_wkey st1) (r_last st1) ->
-  loop_spec parse rest st1 ->
+Lemma same_spec : forall parse rest st st1 exp1 o r,
+  r = rloop parse rest st1 exp1 ->
+  o = doc_elems parse rest (r_wkey st1) (r_last st1) exp1 ->
+  loop_spec parse rest st1 exp1 ->
   (forall els st', loop_post st1 els st' -> loop_post st els st') ->
   match o with
   | None => r = Err ReadError
   | Some els => exists st', r = Ok st' /\ loop_post st els st'
   end.
 Proof.
-  intros parse rest st st1 o r Hr Ho Hspec Hpost. subst r o. unfold loop_spec in Hspec.
-  destruct (doc_elems parse rest (r_wkey st1) (r_last st1)) as [els|].
+  intros parse rest st st1 exp1 o r Hr Ho Hspec Hpost. subst r o. unfold loop_spec in Hspec.
+  destruct (doc_elems parse rest (r_wkey st1) (r_last st1) exp1) as [els|].
   - destruct Hspec as [st' [H1 H2]]. exists st'. split; [exact H1|apply Hpost; exact H2].
   - exact Hspec.
 Qed.
@@ -185,81 +185,71 @@ Qed.
 Lemma rev_cons_app : forall {X} (x : X) l r, rev (x :: l) ++ r = rev l ++ x :: r.
 Proof. intros X x l r. cbn [rev]. rewrite <- app_assoc. reflexivity. Qed.
 
-Theorem rloop_spec : forall parse n evs st,
-  (length evs <= n)%nat -> inv st -> loop_spec parse evs st.
+Ltac skip_step IH Hinv :=
+  eapply same_spec; [reflexivity|reflexivity|apply IH; exact Hinv|intros els st' H; exact H].
+
+Theorem rloop_spec : forall parse evs st exp, inv st -> loop_spec parse evs st exp.
 Proof.
-  intros parse n. induction n as [|n IH]; intros evs st Hlen Hinv.
-  { destruct evs; [|cbn in Hlen; lia]. unfold loop_spec. cbn. exists st. split; [reflexivity|apply loop_post_nil]. }
-  destruct evs as [|ev rest].
+  intros parse evs. induction evs as [|ev rest IH]; intros st exp Hinv.
   { unfold loop_spec. cbn. exists st. split; [reflexivity|apply loop_post_nil]. }
-  assert (Hrest : (length rest <= n)%nat) by (cbn in Hlen; lia).
   unfold loop_spec.
-  destruct ev as [name a|name a|name|raw| | |].
+  destruct ev as [name a|name a|name|raw| | | |].
   - (* EvStart *)
     cbn [rloop doc_elems].
     destruct (bytes_eqb name s_graph).
     { rewrite rd_graph_spec. destruct (graph_dir a) as [d|]; cbn [bind]; [|reflexivity].
-      eapply ocons_spec; [reflexivity|reflexivity|apply IH; [exact Hrest|exact Hinv]|].
+      eapply ocons_spec; [reflexivity|reflexivity|apply IH; exact Hinv|].
       intros els st' [H1 [H2 H3]]. repeat split; assumption. }
     destruct (bytes_eqb name s_node).
     { rewrite rd_add_node_spec. destruct (node_id a) as [id|]; cbn [bind]; [|reflexivity].
-      eapply ocons_spec; [reflexivity|reflexivity|apply IH; [exact Hrest|intro H; discriminate H]|].
+      eapply ocons_spec; [reflexivity|reflexivity|apply IH; intro H; discriminate H|].
       intros els st' [H1 [H2 H3]]. repeat split; [exact H1| |exact H3].
       rewrite H2. cbn [el_nodes]. rewrite rev_cons_app. reflexivity. }
     destruct (bytes_eqb name s_edge).
     { rewrite rd_add_edge_spec. destruct (edge_ends a) as [[s t]|]; cbn [bind]; [|reflexivity].
-      eapply ocons_spec; [reflexivity|reflexivity|apply IH; [exact Hrest|intro H; cbn; discriminate]|].
+      eapply ocons_spec; [reflexivity|reflexivity|apply IH; intro H; cbn; discriminate|].
       intros els st' [H1 [H2 H3]]. repeat split; assumption. }
     destruct (bytes_eqb name s_key).
     { rewrite rd_key_spec. destruct (key_decl a) as [[id|]|]; cbn [bind]; [| |reflexivity].
-      - eapply same_spec; [reflexivity|reflexivity|apply IH; [exact Hrest|exact Hinv]|].
-        intros els st' H. exact H.
-      - eapply same_spec; [reflexivity|reflexivity|apply IH; [exact Hrest|exact Hinv]|].
-        intros els st' H. exact H. }
+      - skip_step IH Hinv.
+      - skip_step IH Hinv. }
     destruct (bytes_eqb name s_data).
-    { rewrite data_wants_text_spec. destruct (data_is_weight a (r_wkey st)) as [[|]|]; cbn [bind]; [| |reflexivity].
-      - (* lookahead *)
-        destruct rest as [|ev2 rest'].
-        { exists st. split; [reflexivity|apply loop_post_nil]. }
-        assert (Hrest' : (length rest' <= n)%nat) by (cbn in Hrest; lia).
-        destruct ev2 as [name2 a2|name2 a2|name2|raw2| | |];
-          try (eapply same_spec; [reflexivity|reflexivity|apply IH; [exact Hrest'|exact Hinv]|intros els st' H; exact H]).
-        + (* Text *)
-          unfold set_weight.
-          destruct (r_last st) eqn:Hlast;
-            try (cbn [bind]; eapply same_spec;
-                 [reflexivity|rewrite Hlast; reflexivity|apply IH; [exact Hrest'|exact Hinv]|intros els st' H; exact H]).
-          destruct (r_edges st) as [|e es] eqn:Hedges; [exfalso; apply (Hinv Hlast); exact Hedges|].
-          destruct (parse raw2) as [w|]; cbn [bind]; [|reflexivity].
-          eapply ocons_spec; [reflexivity|cbn [r_wkey r_last]; try rewrite Hlast; reflexivity| |].
-          * apply IH; [exact Hrest'|intro H; cbn; discriminate].
-          * intros els st' [H1 [H2 H3]]. repeat split; [exact H1|exact H2|].
-            rewrite H3. cbn [apply_edges r_edges]. rewrite Hedges. reflexivity.
-        + (* Eof *) exists st. split; [reflexivity|apply loop_post_nil].
-      - eapply same_spec; [reflexivity|reflexivity|apply IH; [exact Hrest|exact Hinv]|intros els st' H; exact H]. }
-    eapply same_spec; [reflexivity|reflexivity|apply IH; [exact Hrest|exact Hinv]|intros els st' H; exact H].
+    { rewrite data_wants_text_spec. destruct (data_is_weight a (r_wkey st)) as [b|]; cbn [bind]; [|reflexivity].
+      skip_step IH Hinv. }
+    skip_step IH Hinv.
   - (* EvEmpty *)
     cbn [rloop doc_elems]. unfold on_empty.
     destruct (bytes_eqb name s_node).
     { rewrite rd_add_node_spec. destruct (node_id a) as [id|]; cbn [bind]; [|reflexivity].
-      eapply ocons_spec; [reflexivity|reflexivity|apply IH; [exact Hrest|exact Hinv]|].
+      eapply ocons_spec; [reflexivity|reflexivity|apply IH; exact Hinv|].
       intros els st' [H1 [H2 H3]]. repeat split; [exact H1| |exact H3].
       rewrite H2. cbn [el_nodes]. rewrite rev_cons_app. reflexivity. }
     destruct (bytes_eqb name s_edge).
     { rewrite rd_add_edge_spec. destruct (edge_ends a) as [[s t]|]; cbn [bind]; [|reflexivity].
-      eapply ocons_spec; [reflexivity|reflexivity|apply IH; [exact Hrest|intro H; cbn; discriminate]|].
+      eapply ocons_spec; [reflexivity|reflexivity|apply IH; intro H; cbn; discriminate|].
       intros els st' [H1 [H2 H3]]. repeat split; assumption. }
     destruct (bytes_eqb name s_key).
     { rewrite rd_key_spec. destruct (key_decl a) as [[id|]|]; cbn [bind]; [| |reflexivity].
-      - eapply same_spec; [reflexivity|reflexivity|apply IH; [exact Hrest|exact Hinv]|intros els st' H; exact H].
-      - eapply same_spec; [reflexivity|reflexivity|apply IH; [exact Hrest|exact Hinv]|intros els st' H; exact H]. }
-    cbn [bind].
-    eapply same_spec; [reflexivity|reflexivity|apply IH; [exact Hrest|exact Hinv]|intros els st' H; exact H].
-  - cbn [rloop doc_elems]. eapply same_spec; [reflexivity|reflexivity|apply IH; [exact Hrest|exact Hinv]|intros els st' H; exact H].
-  - cbn [rloop doc_elems]. eapply same_spec; [reflexivity|reflexivity|apply IH; [exact Hrest|exact Hinv]|intros els st' H; exact H].
-  - cbn [rloop doc_elems]. eapply same_spec; [reflexivity|reflexivity|apply IH; [exact Hrest|exact Hinv]|intros els st' H; exact H].
-  - cbn [rloop doc_elems]. exists st. split; [reflexivity|apply loop_post_nil].
-  - cbn [rloop doc_elems]. reflexivity.
+      - skip_step IH Hinv.
+      - skip_step IH Hinv. }
+    cbn [bind]. skip_step IH Hinv.
+  - (* EvEnd *) cbn [rloop doc_elems]. skip_step IH Hinv.
+  - (* EvText *)
+    cbn [rloop doc_elems]. destruct exp; [|skip_step IH Hinv].
+    unfold set_weight.
+    destruct (r_last st) eqn:Hlast;
+      try (cbn [bind]; eapply same_spec;
+           [reflexivity|rewrite Hlast; reflexivity|apply IH; exact Hinv|intros els st' H; exact H]).
+    destruct (r_edges st) as [|e es] eqn:Hedges; [exfalso; apply (Hinv Hlast); exact Hedges|].
+    destruct (parse raw) as [w|]; cbn [bind]; [|reflexivity].
+    eapply ocons_spec; [reflexivity|cbn [r_wkey r_last]; try rewrite Hlast; reflexivity| |].
+    + apply IH. intro H. cbn. discriminate.
+    + intros els st' [H1 [H2 H3]]. repeat split; [exact H1|exact H2|].
+      rewrite H3. cbn [apply_edges r_edges]. rewrite Hedges. reflexivity.
+  - (* EvComment *) cbn [rloop doc_elems]. skip_step IH Hinv.
+  - (* EvOther *) cbn [rloop doc_elems]. skip_step IH Hinv.
+  - (* EvEof *) cbn [rloop doc_elems]. exists st. split; [reflexivity|apply loop_post_nil].
+  - (* EvErr *) cbn [rloop doc_elems]. reflexivity.
 Qed.
 
 (* ---- imperative accumulation = declarative edge list ------------------------ *)
@@ -296,9 +286,9 @@ Theorem read_elements_content : forall parse evs,
 Proof.
   intros parse evs. unfold read_elements, doc_content.
   assert (Hinv : inv r_init) by (intro H; discriminate H).
-  pose proof (rloop_spec parse (length evs) evs r_init (le_n _) Hinv) as H. unfold loop_spec in H.
+  pose proof (rloop_spec parse evs r_init false Hinv) as H. unfold loop_spec in H.
   cbn [r_wkey r_last r_init] in H.
-  destruct (doc_elems parse evs s_weight LNone) as [els|].
+  destruct (doc_elems parse evs s_weight LNone false) as [els|].
   - destruct H as [st' [H1 [H2 [H3 H4]]]]. rewrite H1. cbn [bind].
     rewrite H2, H3, H4. cbn [r_directed r_nodes r_edges r_init].
     rewrite app_nil_r, rev_involutive, apply_edges_spec. reflexivity.
